@@ -13,8 +13,30 @@ open CtyModel.Msgpack
 * `d17.allocfit <item> <ty> <bytes> <measured alloc> <ok 0|1>` → `fit` iff `wireSize item ≤ (1 + extDepth item)·bytes` and (when the real
   decoder returned a value) `allocCost ≤ measured alloc`; else the two numbers
 * `d17.jsonimplied <tbl> <json>` → `json.ImpliedType` with the nesting limit of the source (`Generated.jsonMaxImpliedTypeDepth`)
+* `d17.cutfit <cut> <ty> <measured alloc> <bytes per slot>` → `fit` iff `perSlot·allocCostCut ≤ measured ≤ 256·allocCostCut + 16384`
+  (documents cut off after a length header: the case `allocHint` is for)
 * `d17.alloc <item> <ty>` → `<slots> <wireSize>`: element slots requested by the `make(` calls of the decoder on the
   way through the document, and the model's lower bound of the document's size in bytes -/
+
+/-- cut-off documents: `eof` | `(carr n (item*) cut)` | `(cmapk n ((k v)*))` | `(cmapv n ((k v)*) key cut)` | `(cext code len)` -/
+partial def cutOfSexp : Sexp → Option D17.Cut
+  | .atom "eof" => some .eof
+  | .list [.atom "carr", n, .list done, last] => do
+    pure (.arr (← Sexp.decNat n) (← done.mapM HMsgpack.itemOfSexp) (← cutOfSexp last))
+  | .list [.atom "cmapk", n, .list ps] => do
+    let parts ← ps.mapM fun p =>
+      match p with
+      | .list [k, v] => do pure ((← HMsgpack.itemOfSexp k), (← HMsgpack.itemOfSexp v))
+      | _ => none
+    pure (.mapK (← Sexp.decNat n) (parts.map (·.1)) (parts.map (·.2)))
+  | .list [.atom "cmapv", n, .list ps, key, last] => do
+    let parts ← ps.mapM fun p =>
+      match p with
+      | .list [k, v] => do pure ((← HMsgpack.itemOfSexp k), (← HMsgpack.itemOfSexp v))
+      | _ => none
+    pure (.mapV (← Sexp.decNat n) (parts.map (·.1)) (parts.map (·.2)) (← HMsgpack.itemOfSexp key) (← cutOfSexp last))
+  | .list [.atom "cext", c, l] => do pure (.ext (← Sexp.decInt c) (← Sexp.decNat l))
+  | _ => none
 
 open HMsgpack in
 def handleD17 : Handler := fun op args =>
@@ -31,6 +53,15 @@ def handleD17 : Handler := fun op args =>
     let env ← decEnv tbl
     let j ← Json.ofSexp j
     pure (resTag (fun t => toString t.toSexp) (D17.jsonImpliedTop env Generated.jsonMaxImpliedTypeDepth j))
+  | "d17.cutfit", [c, t, a, .atom perSlot] => do
+    -- the allocation cost model on a document cut off after a length header, against the measured allocation:
+    -- perSlot·slots ≤ measured ≤ 256·slots + 16384
+    let c ← cutOfSexp c
+    let t ← Ty.ofSexp t
+    let a ← Sexp.decNat a
+    let per ← perSlot.toNat?
+    let slots := D17.allocCostCut D17.allocHint (extOf []) c t.stripOpt
+    pure (if per * slots ≤ a && a ≤ 256 * slots + 16384 then "fit" else "slots=" ++ toString slots)
   | "d17.allocfit", [it, t, n, a, .atom ok] => do
     let it ← itemOfSexp it
     let t ← Ty.ofSexp t
